@@ -1,9 +1,9 @@
 SPECIFICATION Spec
-CONSTANTS NClasses = 3
+CONSTANTS NClasses = 2
  Homes = {"A", "B"}
- Nla = {"none"}
+ Nla = {}
  RunCode = TRUE
  ZeroK = FALSE
- WithU = FALSE
+ WithU = TRUE
 INVARIANT Emit
 CHECK_DEADLOCK FALSE
